@@ -89,6 +89,7 @@ class Exec {
   struct FdIdent { unsigned long dev, ino; };
   std::map<std::pair<int, uint32_t>, std::vector<FdIdent>> fd_idents;   // (sender, serial) -> the open files attached, in order
   std::map<int, uint32_t> fd_surplus_sent;    // sender -> serial of its message that attached more descriptors than announced
+  std::map<int, long> fd_pending_surplus;     // sender -> descriptors it has attached beyond what its messages announced so far
   std::map<int, int64_t> fd_surplus;          // sender that attached more descriptors than announced -> when
   std::vector<size_t> fd_checked;             // per client: got[] index up to which descriptors were compared
   void check_fds(int ci);
